@@ -28,8 +28,8 @@ EQUIVS = {
     "eq?": ("eq", (0, 1, 2, 3, 4, 5), "(make-hash-table eq?)", "(make-hash-table (make-eq-comparator))", "hash-by-identity"),
     "eqv?": ("genv", (0, 0, 2, 2, 4, 5), "(make-hash-table eqv?)", "(make-hash-table (make-eqv-comparator))", "hash"),
     "equal?": ("gen", (0, 0, 2, 2, 4, 5), "(make-hash-table)", "(make-hash-table (make-equal-comparator))", "hash"),
-    # SHASH / SCIHASH: the hash procedure itself for small tables, a lambda around it for the larger ones (applying the
-    # foreign procedure object from C compiles a wrapper on every call: ~50 us per hash, too slow for 500-entry pre-fills)
+    # SHASH / SCIHASH: a lambda around string-hash / string-ci-hash (applying the foreign procedure object itself from C
+    # compiles a wrapper on every call, ~50-100 us per hash); the procedure object itself is used in the few "raw" configurations
     "string=?": ("str", (0, 0, 2, 2, 4, 5), "(make-hash-table string=? SHASH)",
                  "(make-hash-table (make-comparator string? string=? string<? SHASH))", "string-hash"),
     "string-ci=?": ("str", (0, 0, 0, 0, 4, 5), "(make-hash-table string-ci=? SCIHASH)",
@@ -159,7 +159,7 @@ def op_codes(api):
     return allc, muts, reads
 
 
-def table_prelude(api, eqname, nfill):
+def table_prelude(api, eqname, nfill, raw=False):
     kset, cls, mk69, mk125, hashfn = EQUIVS[eqname]
     kexprs, cand, filler = KEYSETS[kset]
     ops = ALPHABET[api]
@@ -176,8 +176,8 @@ def table_prelude(api, eqname, nfill):
 (define-syntax ue (syntax-rules () ((_ e) (guard (x (#t (write-string "E "))) e (u)))))
 (define (f+ x) (+ x 10))
 (define NFILL %(nfill)d)
-(define SHASH (if (<= NFILL 8) string-hash (lambda (s . o) (if (pair? o) (string-hash s (car o)) (string-hash s)))))
-(define SCIHASH (if (<= NFILL 8) string-ci-hash (lambda (s . o) (if (pair? o) (string-ci-hash s (car o)) (string-ci-hash s)))))
+(define SHASH (if %(raw)s string-hash (lambda (s . o) (if (pair? o) (string-hash s (car o)) (string-hash s)))))
+(define SCIHASH (if %(raw)s string-ci-hash (lambda (s . o) (if (pair? o) (string-ci-hash s (car o)) (string-ci-hash s)))))
 (define (MK) %(mk)s)
 (define F (let ((v (make-vector NFILL #f))) (do ((i 0 (+ i 1))) ((= i NFILL) v) (vector-set! v i %(filler)s))))
 (define K (vector %(k0)s %(k1)s %(k2)s %(k3)s #f #f))
@@ -268,7 +268,7 @@ def table_prelude(api, eqname, nfill):
       (run-one (vector-ref runs i)))
     (newline)))
 """ % dict(nfill=nfill, mk=mk, filler=filler, k0=kexprs[0], k1=kexprs[1], k2=kexprs[2], k3=kexprs[3],
-           cls=" ".join(map(str, cls)), cand=cand, hashfn=hashfn, ops=opl)
+           cls=" ".join(map(str, cls)), cand=cand, hashfn=hashfn, ops=opl, raw="#t" if raw else "#f")
 
 
 def condition_import_fix(txt):
@@ -374,10 +374,10 @@ def expected_line(api, eqname, n0, prefix, m, rot, full, reads_block):
     return toks, labels
 
 
-def runs_text(api, eqname, n0, items):
+def runs_text(api, eqname, n0, items, raw=False):
     """driver text for a list of (index, prefix, m, full, rot)"""
     allc, muts, reads = op_codes(api)
-    pre = condition_import_fix(table_prelude(api, eqname, n0))
+    pre = condition_import_fix(table_prelude(api, eqname, n0, raw))
     out = [pre, "(define READS '#(%s))" % " ".join(str(c[0]) for c in reads),
            "(define LIGHT-READS '#(%s))" % " ".join(str(c[0]) for c in light_reads(api)), "(run-all '#("]
     for i, prefix, m, full, rot in items:
@@ -414,8 +414,9 @@ def table_env(variant, poison):
 
 
 def table_job(arg):
-    """One process: (variant, api, eqname, n0, maxlen, nchunks, chunk, poison) -> result dict"""
-    variant, api, eqname, n0, maxlen, nchunks, chunk, poison = arg
+    """One process: (variant, api, eqname, n0, maxlen, nchunks, chunk, poison[, raw]) -> result dict"""
+    variant, api, eqname, n0, maxlen, nchunks, chunk, poison = arg[:8]
+    raw = len(arg) > 8 and arg[8]
     t0 = time.time()
     runs, stats = explore(api, eqname, n0, maxlen)
     allc, muts, reads = op_codes(api)
@@ -426,7 +427,7 @@ def table_job(arg):
             items.append((i, prefix, m, full, i % (len(reads) if m is None else len(lreads))))
     d = common.scratch_dir("c15t")
     path = os.path.join(d, "runs.scm")
-    common.write_file(path, runs_text(api, eqname, n0, items))
+    common.write_file(path, runs_text(api, eqname, n0, items, raw))
     import resource
     ru0 = resource.getrusage(resource.RUSAGE_CHILDREN)
     res = common.evalbatch(variant, [path], timeout=3000, cwd=d, env=table_env(variant, poison))
@@ -482,7 +483,7 @@ def table_job(arg):
         i, prefix, m, full, rot = items[len(items) // 2]
         sample = "%s table, SRFI %s, %d pre-filled: %s" % (eqname, api, n0, " ; ".join(
             "%s K%d" % (OPNAME_SCHEME.get(c[1], c[1]), c[2]) for c in list(prefix) + ([m] if m else [])) or "(reads only)")
-    return dict(api=api, eq=eqname, n0=n0, chunk=chunk, runs=len(items), executed=n, tokens=ntok, mism=mism, sample=sample,
+    return dict(api=api, eq=eqname, n0=n0, chunk=chunk, runs=len(items), executed=n, tokens=ntok, mism=mism, sample=sample, raw=raw,
                 nmism=len(mism), outcomes=outcomes, crash=crash, stats=stats, collide=collide,
                 wall=time.time() - t0, variant=variant, cpu=cpu, retried=retried)
 
@@ -539,7 +540,7 @@ def attribute(api, eqname, n0, prefix, m, label, got, want):
     return "unexplained"
 
 
-def replay_program(api, eqname, n0, prefix, m, rot, full):
+def replay_program(api, eqname, n0, prefix, m, rot, full, raw=False):
     """prefix: [(opname, j)], m: (opname, j) or None"""
     allc, muts, reads = op_codes(api)
     code = {(c[1], c[2]): c for c in allc}
@@ -552,7 +553,7 @@ def replay_program(api, eqname, n0, prefix, m, rot, full):
     order = [blk[(i + rot) % n] for i in range(n)]
     return (";; C15(b) %s table, SRFI %s names, pre-filled with %d entries; history: %s\n" % (eqname, api, n0, hist or "(none)")
             + ";; keys: %s\n" % KEY_NOTES[EQUIVS[eqname][0]]
-            + runs_text(api, eqname, n0, [(0, pc, mc, full, rot)])
+            + runs_text(api, eqname, n0, [(0, pc, mc, full, rot)], raw)
             + "\n;; expected: %s\n" % " ".join(toks)
             + ";; tokens: results of the history ops | result of the last op | reads: %s | contents as class:value; F<fillers>:<sum>\n"
             % " ".join("%s.K%d" % (c[1], c[2]) for c in order))
@@ -1459,8 +1460,12 @@ def table_depth(tier, api, n0):
 
 
 def run_cost_ms(api, eqname, n0):
+    """estimated CPU milliseconds of one history (asan build), from measurements; only used to size and order the batches"""
     fast = (eqname in ("eq?", "equal?") and api == "69") or (eqname == "eq?")
-    return (0.35 + n0 * (0.02 if fast else 0.07)) * (1.6 if api == "125" and n0 > 31 else 1.0)
+    ci = 3.0 if eqname == "string-ci=?" else 1.0        # string-ci=? folds (allocates) both strings on every comparison
+    if n0 <= FULL_DUMP_N0:
+        return ci * ((0.4 if fast else 0.6) + 0.0036 * maps.buckets_after_inserts(n0))
+    return ci * (0.4 + n0 * (0.022 if fast else 0.07)) * (1.6 if api == "125" else 1.0)
 
 
 def initial_sizes():
@@ -1556,6 +1561,11 @@ def main(tier, replay=None):
                 nchunks = max(1, int(math.ceil(cost / 20000.0)))
                 for c in range(nchunks):
                     jobs.append((cost / nchunks, ("table", ("asan", api, eqname, n0, L, nchunks, c, True))))
+    # the hash procedure objects themselves (string-hash, string-ci-hash) as table hash functions: shallow, small tables
+    for api in ("69", "125"):
+        for eqname in ("string=?", "string-ci=?"):
+            for n0 in (1, 2):
+                jobs.append((15000, ("table", ("asan", api, eqname, n0, 2, 1, 0, True, True))))
     nrow = len(insts)
     step = max(8, nrow // 40)
     first = True
@@ -1602,7 +1612,7 @@ def main(tier, replay=None):
             harness_errors.append(r)
             log("worker error:", r["tb"][-400:])
         elif kind == "table":
-            key = (r["api"], r["eq"], r["n0"])
+            key = (r["api"], r["eq"], r["n0"], r["raw"])
             tstats[key] = r["stats"]
             st["table_runs"] += r["runs"]
             st["table_exec"] += r["executed"]
@@ -1625,7 +1635,7 @@ def main(tier, replay=None):
                 if g["desc"] is None or g["weight"] == len(pl) * 1000 + r["n0"] and g["desc"].get("_w") != g["weight"]:
                     g["desc"] = dict(op="table:" + cause, api="srfi-" + r["api"], equivalence=r["eq"], n0=r["n0"],
                                      history=[opstr(x) for x in pl + ([ml] if ml else [])], at=opstr(lab),
-                                     got=got, want=want, _w=g["weight"], _rp=(r["api"], r["eq"], r["n0"], pl, ml, rot, full))
+                                     got=got, want=want, _w=g["weight"], _rp=(r["api"], r["eq"], r["n0"], pl, ml, rot, full, r["raw"]))
                 g["extra"].setdefault("at", set()).add(lab[0])
                 g["extra"].setdefault("equivalences", set()).add(r["eq"])
                 g["extra"].setdefault("n0", set()).add(r["n0"])
@@ -1723,7 +1733,7 @@ def main(tier, replay=None):
                     rc=c["rc"], frames=fr, timed_out=c["timed_out"], history=[opstr(x) for x in (at[0] + ([at[1]] if at[1] else []))] if at else None)
         rp = None
         if at:
-            rp = replay_program(r["api"], r["eq"], r["n0"], at[0], at[1], at[2], at[3])
+            rp = replay_program(r["api"], r["eq"], r["n0"], at[0], at[1], at[2], at[3], r["raw"])
         agg.add(("crash", r["api"], r["eq"], str(fr)), desc,
                 "table batch (%s, SRFI %s, n0=%d) stopped after %d of %d histories rc=%s %s; tail: %s" % (
                     r["eq"], r["api"], r["n0"], c["got"], c["want"], c["rc"], "ASan %s in %s" % (c["asan"][0], fr) if c["asan"] else "",
@@ -1735,9 +1745,9 @@ def main(tier, replay=None):
         what = g["what"]
         rp = g["replay"]
         if "_rp" in desc:
-            api, eqn, n0, pl, ml, rot, full = desc.pop("_rp")
+            api, eqn, n0, pl, ml, rot, full, raw = desc.pop("_rp")
             desc.pop("_w", None)
-            rp = replay_program(api, eqn, n0, pl, ml, rot, full)
+            rp = replay_program(api, eqn, n0, pl, ml, rot, full, raw)
             toks, labels = expected_line(api, eqn, n0, [(0, a, b) for a, b in pl], (0, ml[0], ml[1]) if ml else None, rot, full,
                                          [(0, c[1], c[2]) for c in (op_codes(api)[2] if ml is None else light_reads(api))])
             res = standalone(rp, "opt")
@@ -1800,6 +1810,8 @@ def main(tier, replay=None):
         "that touched the whole table or crossed a growth threshold look up every filler, the others probe three fillers",
         "read-only operations from a state are executed one after the other on the same table (rotating order)",
         "hash-table-update! with a size-reading thunk is explored as a final operation only",
+        "string tables use (lambda (s . o) ...) around string-hash / string-ci-hash; the procedure objects themselves are used "
+        "in 8 extra configurations (1 and 2 pre-filled entries, depth 2)",
         "default comparator of SRFI 128 (numbers compared with =) is not among the five equivalences",
     ]
     for name, expr, g in fam[:1]:
